@@ -507,7 +507,11 @@ func (c *Client) do(ctx context.Context, req *protocol.Request, resp *protocol.R
 			// load http1 client by default
 			c.clientFactory = factory.NewClientFactory(newHttp1OptionFromClient(c))
 		}
-		hc, _ = c.clientFactory.NewHostClient()
+		hc, err = c.clientFactory.NewHostClient()
+		if err != nil {
+			c.mLock.Unlock()
+			return err
+		}
 		hc.SetDynamicConfig(&client.DynamicConfig{
 			Addr:     utils.AddMissingPort(h, isTLS),
 			ProxyURI: proxyURI,
